@@ -155,3 +155,86 @@ Proof.
       * destruct (Nat.ltb_spec (S (S j)) n); [lia|]. rewrite <- Hl. lra.
       * destruct (Nat.ltb_spec (S (S j)) n); [|lia]. lra.
 Qed.
+
+(* ------------------------------------------------------------------------------------ *)
+(* The Thomas solve solves the system (R instance), for every matrix built from k >= 0. *)
+Fixpoint pivots_ok (cp : R) (rows : list (R * R * R)) : Prop :=
+  match rows with
+  | [] => True
+  | (a, d, c) :: rs => d - a * cp <> 0 /\ pivots_ok (c / (d - a * cp)) rs
+  end.
+
+Lemma fwd_length (rows : list (R * R * R)) : forall b cp dp,
+  length b = length rows -> length (fwd NumR cp dp rows b) = length rows.
+Proof.
+  induction rows as [|[[a d] c] rs IH]; intros b cp dp Hl; [reflexivity|].
+  destruct b as [|bj bs]; [discriminate|]. simpl. f_equal. apply IH. simpl in Hl. lia.
+Qed.
+Lemma back_length (cd : list (R * R)) : length (back NumR cd) = length cd.
+Proof. induction cd as [|[cp dp] rest IH]; simpl; [reflexivity|]. now rewrite IH. Qed.
+
+Lemma thomas_aux (rows : list (R * R * R)) : forall b cp dp,
+  length b = length rows -> pivots_ok cp rows ->
+  let xs := back NumR (fwd NumR cp dp rows b) in
+  mv NumR (dp - cp * hd 0 xs) rows xs = b.
+Proof.
+  induction rows as [|[[a d] c] rs IH]; intros b cp dp Hl Hp.
+  - destruct b; [reflexivity|discriminate].
+  - destruct b as [|bj bs]; [discriminate|]. simpl in Hl. destruct Hp as [Hden Hp'].
+    cbn [fwd back mv]. simpl nsub; simpl nmul; simpl ndiv; simpl nadd; simpl n0.
+    set (den := d - a * cp) in *.
+    set (xs' := back NumR (fwd NumR (c / den) ((bj - a * dp) / den) rs bs)).
+    f_equal.
+    + cbn [hd]. field_simplify_eq; [|exact Hden]. unfold den. ring.
+    + cbn [hd]. apply (IH bs (c / den) ((bj - a * dp) / den)); [lia|exact Hp'].
+Qed.
+
+Theorem thomas_solves (rows : list (R * R * R)) (b : list R) :
+  length b = length rows -> pivots_ok 0 rows ->
+  mv NumR 0 rows (thomas NumR rows b) = b /\ length (thomas NumR rows b) = length rows.
+Proof.
+  intros Hl Hp. split.
+  - pose proof (thomas_aux rows b 0 0 Hl Hp) as E. cbv zeta in E.
+    replace (0 - 0 * hd 0 (back NumR (fwd NumR 0 0 rows b))) with 0 in E by ring. exact E.
+  - unfold thomas. rewrite back_length. apply fwd_length. exact Hl.
+Qed.
+
+Lemma rows_from_cons2 first kj r2 (rest : list R) :
+  rows_from NumR first (kj :: r2 :: rest)
+  = ((if first then 0 else 0 - kj), 1 + 2 * kj, 0 - kj) :: rows_from NumR false (r2 :: rest).
+Proof. reflexivity. Qed.
+Lemma rows_from_single first kj :
+  rows_from NumR first [kj] = [((if first then 0 else 0 - kj), 1 + kj, 0)].
+Proof. reflexivity. Qed.
+
+Lemma pivots_rows_from (k : list R) : forall first cp,
+  Forall (fun v => 0 <= v) k -> -1 <= cp <= 0 -> pivots_ok cp (rows_from NumR first k).
+Proof.
+  induction k as [|kj rest IH]; intros first cp Hk Hcp; [exact I|].
+  inversion Hk as [|? ? Hkj Hrest]; subst.
+  destruct rest as [|r2 rest'].
+  - rewrite rows_from_single. cbn [pivots_ok]. split; [|exact I]. destruct first; nra.
+  - rewrite rows_from_cons2. cbn [pivots_ok].
+    set (a := if first then 0 else 0 - kj).
+    assert (Ha : a = 0 \/ a = 0 - kj) by (unfold a; destruct first; auto).
+    assert (Hge : 1 + kj <= 1 + 2 * kj - a * cp) by (destruct Ha as [->| ->]; nra).
+    assert (Hpos : 0 < 1 + 2 * kj - a * cp) by lra.
+    split; [lra|].
+    apply IH; [exact Hrest|].
+    split.
+    + apply Rmult_le_reg_r with (1 + 2 * kj - a * cp); [exact Hpos|].
+      unfold Rdiv. rewrite Rmult_assoc, Rinv_l by lra. lra.
+    + apply Rmult_le_reg_r with (1 + 2 * kj - a * cp); [exact Hpos|].
+      unfold Rdiv. rewrite Rmult_assoc, Rinv_l by lra. lra.
+Qed.
+
+Corollary thomas_rows_of (k b : list R) :
+  Forall (fun v => 0 <= v) k -> length b = length k ->
+  mv NumR 0 (rows_of NumR k) (thomas NumR (rows_of NumR k) b) = b
+  /\ length (thomas NumR (rows_of NumR k) b) = length k.
+Proof.
+  intros Hk Hl.
+  assert (Hr : length (rows_of NumR k) = length k) by apply rows_from_length.
+  rewrite <- Hr. apply thomas_solves; [congruence|].
+  apply pivots_rows_from; [exact Hk|lra].
+Qed.
